@@ -37,6 +37,12 @@ func (s *SyslogIngester) Process(ctx context.Context, line string) error {
 
 // ParseSyslogMessage expects a message in the form of "<PID> <Message>".
 func (s *SyslogIngester) ParseSyslogMessage(entry string) sshd.SshdLogEntry {
+	// The named pipe ingester hands over each record including the
+	// newline that terminates it. The newline is framing, not part of
+	// the sshd message: keeping it defeats the end-anchored sshd
+	// regular expressions and leaks into the extracted fields.
+	entry = strings.TrimSuffix(entry, "\n")
+
 	minimumEntrySplitLength := 2
 	entrySplit := strings.Split(entry, " ")
 
